@@ -242,6 +242,10 @@ func isIntConst(t *Term) (int64, bool) {
 
 // sym returns a declared constant symbol.
 func sym(name string, s *Sort) *Term {
+	// one process verifies many functions: a parameter / local of the same name may have another sort elsewhere
+	if d, ok := symDecls[name]; ok && d.Ret != s {
+		name = name + "@" + s.Name
+	}
 	declFun(name, nil, s)
 	return mk("$"+name, s)
 }
